@@ -903,6 +903,8 @@ class Interp:
                 pass
         if isinstance(a, AList) and isinstance(b, AList) and isinstance(op, ast.Add):
             return AList(a.items + b.items)
+        if isinstance(a, AList) and isinstance(b, SymList) and isinstance(op, ast.Add):
+            return AList(a.items + [Seg(b.name)])
         if isinstance(a, AList) and isinstance(b, int) and isinstance(op, ast.Mult):
             return AList(a.items * b)
         if isinstance(a, BV) or isinstance(b, BV):
@@ -1221,6 +1223,8 @@ class Interp:
                 return AList(v.items) if name == "list" else tuple(v.items)
             if isinstance(v, (tuple, list, range, str, bytes)):
                 return AList(list(v)) if name == "list" else tuple(v)
+            if isinstance(v, SymList) and name == "list":
+                return AList([Seg(v.name)])
             return Unknown(f"{name}({_text(v)})")
         if name == "enumerate":
             v = args[0]
